@@ -104,7 +104,11 @@ def _t_litr(o):
     return [(0, 0, o.U0(1), o.U0(0), float(o.par['LIT']))]
 
 # literal constants whose shortest decimal representation needs many digits (a printer with fewer digits changes the form)
-LITERAL_POOL = [1.0 / 3.0, 3.141592653589793, 0.1 + 0.2, 1234567.891, 1.0000001e-07, 2.0 / 7.0, 1e5 / 3.0, 123456789.0, -0.7071067811865476]
+LITERAL_POOL = [1.0 / 3.0, 3.141592653589793, 0.1 + 0.2, 1234567.891, 1.0000001e-07, 2.0 / 7.0, 1e5 / 3.0, 123456789.0, -0.7071067811865476,
+                1e-15, 6.6e-34]      # tiny but valid literals (physical constants) must not be folded away
+
+def _t_littiny(o):
+    return [(0, 0, o.U0(1), o.U0(0), 1e-15)] + [(0, 0, o.G(a, 1), o.G(a, 0), 2.5e-15) for a in range(o.dim)]
 
 def _t_mass(o):
     return [(0, 0, o.U0(1), o.U0(0), 1.0)]
@@ -135,12 +139,14 @@ FORMS = {
     'pg_hi':    (2, 2, 'u.dx(0)*v*dx + u*v*dx', [('u', 1, 0), ('v', 1, 1)], True, {'_deg': 'hi'}, _t_pg, False, 1),
     'pg_lo':    (2, 2, 'u.dx(0)*v*dx + u*v*dx', [('u', 1, 0), ('v', 1, 1)], True, {'_deg': 'lo'}, _t_pg, False, 1),
     'pg_mix':   (2, 2, 'u.dx(0)*v*dx + u*v*dx', [('u', 1, 0), ('v', 1, 1)], True, {'_deg': 'mix'}, _t_pg, False, 1),
+    'pg_mult':  (2, 2, 'u.dx(0)*v*dx + u*v*dx', [('u', 1, 0), ('v', 1, 1)], True, {'_deg': 'mult'}, _t_pg, False, 1),
     'funcvec':  (2, 1, 'inner(F, v)*dx', [('v', 2)], False, {'F': 'fieldv'}, _t_funcvec, False, 0),
     'matpar':   (2, 2, 'inner(K.dot(grad(u)), grad(v))*dx', None, False, {'K': 'par2'}, _t_matpar, False, 1),
     'funcphys': (2, 1, 'sin(g)*v.dx(1)*dx + g*v*dx', None, False, {'g': 'phys'}, _t_funcphys, True, 1),
     'pderiv':   (2, 2, 'Dx(u,0,parametric=True)*Dx(v,1,parametric=True)/f*dx + (abs(f)+sqrt(f))*u*v*dx', None, False, {'f': 'fieldp'}, _t_pderiv, True, 1),
     'lit':      (2, 2, '0.3333333333333333*u*v*dx + 3.141592653589793*inner(grad(u),grad(v))*dx + 1.234567891*u.dx(0)*v*dx + 0.30000000000000004*u*v.dx(1)*dx',
                  None, False, {}, _t_lit, False, 1),
+    'littiny':  (2, 2, '1e-15*u*v*dx + 2.5e-15*inner(grad(u),grad(v))*dx', None, False, {}, _t_littiny, False, 1),
     'litr':     (2, 2, 'LIT*u*v*dx', None, False, {'_literal': True}, _t_litr, False, 0),
     'surf':     (2, 2, 'g*u*v*ds', None, False, {'g': 'phys', '_surface': True}, _t_gmass, False, 0),
     'bdry':     (2, 2, 'g*u*v*ds', None, False, {'g': 'phys', '_boundary': True}, _t_gmass, False, 0),
@@ -192,10 +198,15 @@ def rand_geo(rng, dim, cylinder=False):
         return bspline.BSplineFunc(kvs, coeffs), 'cyl'
     coeffs += rng.uniform(-0.06, 0.06, size=coeffs.shape)
     coeffs *= rng.uniform(0.7, 1.6)
+    tag = ''
+    if dim >= 2 and rng.integers(0, 2) == 0:
+        # negatively oriented parametrisation: exchange the first two components of the map (det J < 0 everywhere)
+        coeffs[..., [0, 1]] = coeffs[..., [1, 0]]
+        tag = '-negdet'
     if rng.integers(0, 2) == 0 or dim == 1:
-        return bspline.BSplineFunc(kvs, coeffs), 'bspline'
+        return bspline.BSplineFunc(kvs, coeffs), 'bspline' + tag
     w = rng.uniform(0.8, 1.25, size=coeffs.shape[:-1])
-    return geometry.NurbsFunc(kvs, coeffs, w), 'nurbs'
+    return geometry.NurbsFunc(kvs, coeffs, w), 'nurbs' + tag
 
 
 class Oracle:
@@ -329,7 +340,14 @@ def make_case(name, seed, tier):
         kv, br = rand_kv(rng, pmin, pmax, 2 if small3 else maxspans, p=p0s[k], minspans=2 if (degrel or small3) else 1, simple=small3)
         kvs0.append(kv); brks.append(br)
     kvs0 = tuple(kvs0)
-    if two_space:
+    if degrel == 'mult':
+        # same degree, mesh and number of dofs, but the knot multiplicities are distributed differently
+        from pyiga import bspline as _b
+        def kvm(dbl):
+            inner = [0.25, 0.5, 0.75]
+            return _b.KnotVector(np.array([0.0] * 3 + sorted(inner + [dbl]) + [1.0] * 3), 2)
+        kvs0 = tuple(kvm(0.25) for _ in range(dim)); kvs1 = tuple(kvm(0.75) for _ in range(dim))
+    elif two_space:
         kvs1 = tuple(rand_kv(rng, pmin, pmax, maxspans, breaks=br, p=p1s[k])[0] for k, br in enumerate(brks))
     else:
         kvs1 = kvs0
@@ -339,7 +357,7 @@ def make_case(name, seed, tier):
     if inputs.get('_surface'):
         # graph surface over the perturbed parametrisation: third component a smooth bump
         from pyiga import bspline as _b
-        c2 = np.asarray(geo.coeffs if gkind == 'bspline' else geo.coeffs[..., :dim] / geo.coeffs[..., -1:])
+        c2 = np.asarray(geo.coeffs if gkind.startswith('bspline') else geo.coeffs[..., :dim] / geo.coeffs[..., -1:])
         z = rng.uniform(-0.3, 0.3, size=c2.shape[:-1] + (1,))
         geo, gkind = _b.BSplineFunc(geo.kvs, np.concatenate((c2[..., :dim], z), axis=-1)), 'surface'
     if inputs.get('_boundary'):
@@ -882,11 +900,18 @@ def literal_stream(ctx):
             except ValueError:
                 pass
         toks |= {-t for t in toks}        # a sign may be printed as a separate NegExpr
-        for e in vf.all_exprs(type=vform.ConstExpr):
-            v = float(e.value)
+        consts = [float(e.value) for e in vf.all_exprs(type=vform.ConstExpr)]
+        for v in consts:
             nconst += 1
             if v not in toks:
                 bad.append((problem, v))
+        # every literal written in the form string must still be a constant of the finalized form (none folded away)
+        for mo in num.finditer(problem):
+            t = mo.group(0)
+            if ('.' in t or 'e' in t.lower()) and float(t) not in (0.0, 1.0, -1.0):
+                nconst += 1
+                if float(t) not in consts and -float(t) not in consts:
+                    bad.append((problem, float(t)))
     ctx.count('generated-source literals checked', nconst)
     for (problem, v) in bad[:3]:
         ctx.violation('literal-roundtrip', 'the constant %r of form `%s` does not appear in the generated kernel source as a literal that reads back to the same double '
@@ -939,6 +964,8 @@ def run(ctx):
     jobs.sort(key=lambda j: isinstance(FORMS[j['name']][2], tuple))
     jobs.insert(0, {'name': 'parlay', 'seed': int(ctx.seed * 1000003 + 71), 'tier': ctx.tier})
     jobs.append({'name': 'bdhist', 'seed': int(ctx.seed * 1000003 + 72), 'tier': ctx.tier})
+    jobs.append({'name': 'updparams0', 'seed': int(ctx.seed * 1000003 + 73), 'tier': ctx.tier})
+    jobs.append({'name': 'updparams2', 'seed': int(ctx.seed * 1000003 + 74), 'tier': ctx.tier})
     jobs.append({'name': '_sp10', 'seed': int(ctx.seed), 'tier': ctx.tier})
     join = start_workers(ctx, jobs)
     ctx.require_lean(['Pyiga.Props.C01', 'drv_c01'])
@@ -1224,6 +1251,12 @@ def worker(name, seed, tier):   # noqa: F811  (dispatch for the probe)
         return _worker_sp10(seed)
     if name == 'parlay':
         return _worker_parlay(seed, tier)
+    if name.startswith('updparams'):
+        # a parameter entering through a let()/common-subexpression variable, update_params, second assembly (worker of C08)
+        from . import c08
+        r = c08.worker_updparams(int(name[9:]), seed, tier)
+        r.setdefault('lean', [])
+        return r
     if name == 'bdhist':
         return _worker_bdhist(seed, tier)
     return _worker_orig(name, seed, tier)
